@@ -2393,8 +2393,29 @@ func (c *Conn) negotiateVersionClient(ctx context.Context) ([]*dtlsflight.Packet
 		return nil, err
 	}
 
+	// No state machine runs yet, so this loop is the retransmission timer of
+	// the first flight: while the server stays silent the ClientHello is sent
+	// again at the configured interval, which doubles up to 60 seconds.
+	interval := c.handshakeConfig.InitialRetransmitInterval
 	for {
-		if err := c.readAndBufferNoFSM(ctx); err != nil {
+		readCtx, cancel := context.WithTimeout(ctx, interval)
+		err := c.readAndBufferNoFSM(readCtx)
+		timedOut := readCtx.Err() != nil && ctx.Err() == nil
+		cancel()
+		if err != nil && timedOut {
+			if err = c.writePackets(ctx, pkts); err != nil {
+				return nil, err
+			}
+			if !c.handshakeConfig.DisableRetransmitBackoff {
+				interval *= 2
+			}
+			if interval > 60*time.Second {
+				interval = 60 * time.Second
+			}
+
+			continue
+		}
+		if err != nil {
 			return nil, err
 		}
 		if ok, err := c.pickVersionFromServerResponse(); err != nil {
